@@ -89,6 +89,8 @@ class BlockWriteHandler(AbstractWriteHandler):
         self._next_vertex = start_vertex
         self.check_end_block = check_end_block
         self.last_handler_in_block = None
+        # The handler that was written before last_handler_in_block (for check_end_block: the flow came from there).
+        self.previous_handler_in_block: AbstractWriteHandler | None = None
         self._disallow_nested = disallow_nested
         # If False, no return is written when the block runs out of operations without an ending one.
         self._insert_missing_end = insert_missing_end
@@ -103,6 +105,7 @@ class BlockWriteHandler(AbstractWriteHandler):
         is_first_vertex = True
         while self._next_vertex is not None:
             # Write
+            self.previous_handler_in_block = self.last_handler_in_block
             self.last_handler_in_block = WriteHandlerManager.get_for(
                 self._next_vertex, self.decompiler, self, self.vertex_that_started_block, is_first_vertex
             )
